@@ -309,6 +309,11 @@ class TLSTransportWrapper:
             self.tls_protocol.tls_conn.sendall(data)
             self.tls_protocol._flush_outgoing()
 
+    def set_write_buffer_limits(
+        self, high: int | None = None, low: int | None = None
+    ) -> None:
+        """Accepted for transport compatibility; writes are flushed at once."""
+
     def close(self) -> None:
         """Initiate TLS shutdown and close."""
         if self.tls_protocol.tls_conn:
